@@ -221,6 +221,12 @@ def apply_ops(f, frames, k):
             out[op[1]] = base
         elif o == 'drop':
             out.pop(op[1], None)
+        elif o == 'add_at':
+            if seq in op[2]:
+                out[op[1]] = next(iter(out.values()), None)
+        elif o == 'drop_at':
+            if seq in op[2]:
+                out.pop(op[1], None)
         elif o == 'empty':
             ret = {}
         elif o == 'empty_at':
@@ -256,7 +262,8 @@ def reference_inputs(scn):
                     empty |= set(op[1])
 
             for k in range(f.get('n', 3)):
-                out.append((k, {} if k in empty else {t: (name, k) for t in f.get('topics', ['main'])}))
+                tps = (f.get('topics_at') or {}).get(str(k), (f.get('topics_at') or {}).get(k, f.get('topics', ['main'])))
+                out.append((k, {} if k in empty else {t: (name, k) for t in tps}))
 
             pubs[name] = out
 
@@ -1004,3 +1011,7 @@ def oracle_c18(scn, res):
     evs = [e['type'] for e in res.log if e['ev'] == 'lineage']
 
     return check_lineage(scn, res), common.digest(evs, 16)
+
+
+def oracle_c02_order_only(scn, res):
+    return check_order(scn, res), outcome(res)
